@@ -152,6 +152,7 @@ func runC05(c *Ctx) {
 	if fn := p.Func(rel, "bucketBlock", "overlapsClosedInterval"); fn == nil {
 		c.Incomplete("time-overlap-test", rel+".(*bucketBlock).overlapsClosedInterval", "", "function not found")
 	} else {
+		nm := namesOf(fn)
 		x := newE9(p, fn, func(e ast.Expr, text string) string {
 			t := strings.ReplaceAll(text, " ", "")
 			switch {
@@ -159,8 +160,10 @@ func runC05(c *Ctx) {
 				return "bmin"
 			case strings.HasSuffix(t, ".MaxTime"):
 				return "bmax"
-			case t == "mint" || t == "maxt":
-				return t
+			case t == nm.P(0):
+				return "mint"
+			case t == nm.P(1):
+				return "maxt"
 			}
 			return ""
 		})
@@ -187,9 +190,9 @@ func runC05(c *Ctx) {
 			},
 			Domain: func(t string) string {
 				switch t {
-				case "lset":
+				case paramWhere(fn, func(ty string) bool { return ty == "[]labels.Labels" }):
 					return "L"
-				case "matchers":
+				case paramWhere(fn, func(ty string) bool { return ty == "[]*labels.Matcher" }):
 					return "M"
 				}
 				return ""
@@ -222,13 +225,13 @@ func runC05(c *Ctx) {
 					return "isAddr", false
 				case strings.HasSuffix(t, `.Name!="__address__"`):
 					return "isAddr", true
-				case strings.Contains(t, ".Matches(addr)"):
+				case strings.Contains(t, ".Matches("+paramWhere(fn, func(ty string) bool { return ty == "string" })+")"):
 					return "match", false
 				}
 				return "", false
 			},
 			Domain: func(t string) string {
-				if t == "matchers" {
+				if t == paramWhere(fn, func(ty string) bool { return ty == "[]*labels.Matcher" }) {
 					return "M"
 				}
 				return ""
@@ -254,9 +257,9 @@ func runC05(c *Ctx) {
 			Atom: func(t string) (string, bool) {
 				t = strings.ReplaceAll(t, " ", "")
 				switch {
-				case t == "isLocal":
+				case t == lhsOfCallTo(fn, "Addr", 1):
 					return "isLocal", false
-				case t == "debugLogging":
+				case t == paramWhere(fn, func(ty string) bool { return ty == "bool" }):
 					return "debug", false
 				case strings.HasSuffix(t, `.Name=="__address__"`):
 					return "isAddr", false
@@ -267,7 +270,7 @@ func runC05(c *Ctx) {
 			},
 			Domain: func(t string) string {
 				switch {
-				case t == "storeDebugMatchers":
+				case t == paramWhere(fn, func(ty string) bool { return ty == "[][]*labels.Matcher" }):
 					return "S"
 				case strings.HasPrefix(t, "$"):
 					return "M"
